@@ -283,9 +283,12 @@ fn main() {
     // next_phase_wrapped_to with wrap values other than one cycle
     let mut wts: Vec<(usize, Vec<usize>)> = Vec::new();
     for step8 in [0usize, 1, 2, 3, 5, 6, 8, 12, 24, 60] {
-        for l in 1..=5usize {
-            for code in 0..5usize.pow(l as u32) {
-                wts.push((step8, (0..l).map(|j| (code / 5usize.pow(j as u32)) % 5).collect()));
+        // one wrap value per sequence: what a call does with a step taken under a DIFFERENT earlier
+        // wrap value is not pinned by the property (an implementation may wrap a step when it is
+        // taken or when the next phase is asked for)
+        for l in 1..=8usize {
+            for ri in 0..5usize {
+                wts.push((step8, vec![ri; l]));
             }
         }
     }
@@ -316,7 +319,7 @@ fn main() {
     ctx.add_evals(evals.load(Relaxed));
     ctx.set("exhaustive", json!(false));
     ctx.set("exhaustive_scope", json!("finite alphabets of steps / frequency sequences / seeds, enumerated completely; every per-frame sequence over 4 letters to the stated length; all 2^64 seeds and arbitrary real frequencies are not covered"));
-    ctx.rule(&format!("constant frequency: 10 dyadic steps x 3 rates (phase law exact: phase_n == frac(n*step), first phase 0, phase in [0,1)) and 8 non-dyadic (hz, rate) pairs run for {long} frames (tolerance n*2^-50); sine == sin(2 pi phase), saw == 1 - 2 phase, square == +1 for phase < 1/2 else -1, exactly, with the phase taken from an identically constructed Phase run in lock step; all outputs in [-1,1]; per-frame frequency: every sequence over 4 letters of length <= {maxl} (dyadic alphabet at rate 8, audio alphabet at 44100; and over {{0, 440, rate/2, 1.25 rate, 2.5 rate}} to length 5 at 44100, 48000, 88200, 96000, 192000 and 50000 Hz) through rate.hz(instrumented signal): one frequency frame consumed per output frame for phase, sine, saw and square; Phase::next_phase_wrapped_to called directly: every sequence of up to 5 wrap values over {{1/4, 1/2, 1, 2, 65536}} x 10 dyadic steps, each call returns the current phase and advances it wrapped to that call's value, exactly; noise: 9 boundary seeds x 2^20 frames + every 64th seed below {dense}: range, clone/restart reproduce, frame k of noise(s) == frame 0 of noise(s+k); simplex: all multiples of 2^-8 in [0,65536) (quick: the first 2^22) and non-dyadic runs: range, purity; evaluations = frames generated; distinct by configuration"));
+    ctx.rule(&format!("constant frequency: 10 dyadic steps x 3 rates (phase law exact: phase_n == frac(n*step), first phase 0, phase in [0,1)) and 8 non-dyadic (hz, rate) pairs run for {long} frames (tolerance n*2^-50); sine == sin(2 pi phase), saw == 1 - 2 phase, square == +1 for phase < 1/2 else -1, exactly, with the phase taken from an identically constructed Phase run in lock step; all outputs in [-1,1]; per-frame frequency: every sequence over 4 letters of length <= {maxl} (dyadic alphabet at rate 8, audio alphabet at 44100; and over {{0, 440, rate/2, 1.25 rate, 2.5 rate}} to length 5 at 44100, 48000, 88200, 96000, 192000 and 50000 Hz) through rate.hz(instrumented signal): one frequency frame consumed per output frame for phase, sine, saw and square; Phase::next_phase_wrapped_to called directly with one wrap value in {{1/4, 1/2, 1, 2, 65536}} for up to 8 calls x 10 dyadic steps: call n returns (n x step) mod the wrap value, exactly; noise: 9 boundary seeds x 2^20 frames + every 64th seed below {dense}: range, clone/restart reproduce, frame k of noise(s) == frame 0 of noise(s+k); simplex: all multiples of 2^-8 in [0,65536) (quick: the first 2^22) and non-dyadic runs: range, purity; evaluations = frames generated; distinct by configuration"));
     ctx.sample(json!({"sys":"var","rate":b(8.0),"hzs":[b(6.0), b(20.0), b(0.0), b(1.0)],"dyadic":true}));
     ctx.sample(json!({"sys":"noise","seed":"4294967295","frames":1048576}));
     ctx.assume("seeds with seed + frames >= 2^64 are excluded: the internal counter then overflows (a panic in debug builds, a wrap in release), which the property does not speak about");
